@@ -709,6 +709,21 @@ func (e *enc) loopHeader(fr *frame, h *ssa.BasicBlock) {
 		t := e.fresh("phi_"+phi.Comment+"_"+phi.Name(), e.so.of(phi.Type()))
 		ls.phiPre[phi] = t
 		fr.val[phi] = t
+		if _, isMap := phi.Type().Underlying().(*types.Map); isMap {
+			// a map variable re-assigned in the loop (m = f(m)): taken to stay the same map (checked at every back edge)
+			for i, p := range h.Preds {
+				if fr.backedge[[2]int{p.Index, h.Index}] {
+					continue
+				}
+				if pv, ok := fr.prov[phi.Edges[i]]; ok {
+					fr.prov[phi] = pv
+					if ls.mapPhis == nil {
+						ls.mapPhis = map[*ssa.Phi]*Loc{}
+					}
+					ls.mapPhis[phi] = pv
+				}
+			}
+		}
 		e.assumeWF(t, phi.Type(), 2)
 		// a phi over pointers into cells keeps its location only if all edges agree
 		var l0 *Loc
@@ -802,6 +817,23 @@ func rangeBound(h *ssa.BasicBlock, phi *ssa.Phi) ssa.Value {
 
 func (e *enc) loopLatch(fr *frame, latch, h *ssa.BasicBlock) {
 	ls := fr.loops[h]
+	if ls != nil {
+		for phi, pv := range ls.mapPhis {
+			for i, p := range h.Preds {
+				if p != latch {
+					continue
+				}
+				bp, ok := fr.prov[phi.Edges[i]]
+				if !ok || locKey(bp) != locKey(pv) {
+					e.outOfSubset = append(e.outOfSubset, fmt.Sprintf("map variable %s is re-assigned in a loop to a map that is not the same map", phi.Comment))
+					save := fr.cur
+					fr.cur = "true"
+					e.oblige("mapvar", "false", firstPos(h), "the map variable "+phi.Comment+" keeps denoting the same map around the loop")
+					fr.cur = save
+				}
+			}
+		}
+	}
 	if ls == nil || ls.spec == nil {
 		return
 	}
@@ -1430,6 +1462,25 @@ func (e *enc) instr(b *ssa.BasicBlock, in ssa.Instruction) {
 				t = fmt.Sprintf("(ite %s %s %s)", e.edgeCond(p, b), pv, t)
 			}
 		}
+		if _, isMap := x.Type().Underlying().(*types.Map); isMap {
+			// a map variable re-assigned on some paths (m = f(m)): if every incoming value is the same map, the phi is that map
+			var p0 *Loc
+			same := true
+			for i := range b.Preds {
+				if _, ok := fr.atEnd[b.Preds[i]]; !ok {
+					continue
+				}
+				p, ok := fr.prov[x.Edges[i]]
+				if !ok || (p0 != nil && locKey(p0) != locKey(p)) {
+					same = false
+					break
+				}
+				p0 = p
+			}
+			if same && p0 != nil {
+				fr.prov[x] = p0
+			}
+		}
 		if t == "" {
 			t = e.fresh("phi_dead", e.so.of(x.Type()))
 		}
@@ -1461,6 +1512,9 @@ func (e *enc) instr(b *ssa.BasicBlock, in ssa.Instruction) {
 			}
 			if p, ok := fr.tupleProvs[x.Tuple]; ok && x.Index == 0 {
 				fr.prov[x] = p
+			}
+			if ps, ok := fr.tupleProvIdx[x.Tuple]; ok && ps[x.Index] != nil {
+				fr.prov[x] = ps[x.Index]
 			}
 		} else {
 			fr.val[x] = e.fresh("ext", e.so.of(x.Type()))
@@ -1555,6 +1609,16 @@ func (e *enc) instr(b *ssa.BasicBlock, in ssa.Instruction) {
 		ri := retInfo{at: fr.cur, vals: vals, mem: copyMem(e.mem), pos: x.Pos(), ptr: map[string]*Loc{}}
 		for k, v := range e.ptrIn {
 			ri.ptr[k] = v
+		}
+		for i, r := range x.Results {
+			if _, isMap := r.Type().Underlying().(*types.Map); isMap {
+				if p, ok := fr.prov[r]; ok {
+					if ri.provs == nil {
+						ri.provs = map[int]*Loc{}
+					}
+					ri.provs[i] = p
+				}
+			}
 		}
 		for i, r := range x.Results {
 			if l, ok := fr.loc[r]; ok {
